@@ -31,7 +31,7 @@ META["claim"] += " " + 'Round 4: connection failures that take a while to come b
 SCHEMES = ["ws", "wss", "http", "https", "", None, "wsx", "ftp", "WSS", "Wss", "WS"]  # None = no colon at all
 HOSTS = ["example.test", "EXAMPLE.Test", "10.1.2.3", "[2001:db8::1]", "[::1]", "user:pw@auth.test", "", "a-b.c_d.test"]
 PORTS = [None, "1", "80", "443", "8080", "65535", "65536", "0", "abc", ""]
-PATHS = ["", "/", "/a/b", "/a;p=1", "/%7E", "/a;p=1/b;q", "/x/"]
+PATHS = ["", "/", "/a/b", "/a;p=1", "/%7E", "/a;p=1/b;q", "/x/", "//v2/stream", "///a//b/", "//", "/a//b", "/.", "/../x", "/a b", "/%2F%2f", "/:80", "/@x", "/a\\b"]
 QUERIES = [None, "x=1", "a=1&b=2", "q=a;b", "u=http://x/?y"]
 SLASHES = ["//", "/", ""]
 
@@ -248,7 +248,9 @@ def addr_case(res, W, rng, lst, setting, slow=False):
         else:
             errs[ip] = PermissionError(errno.EPERM, "Operation not permitted")
             net_.listen(ip, 8080, ("error", errs[ip]))
-    user_opts = [] if setting == 0 else [(_socket.SOL_SOCKET, _socket.SO_RCVBUF, 4096 + setting)]
+    # option names are only unique within their level: SO_SNDBUF == TCP_SYNCNT == 7, SO_RCVBUF == TCP_LINGER2 == 8 on Linux
+    user_opts = [[], [(_socket.SOL_SOCKET, _socket.SO_RCVBUF, 4096 + setting), (_socket.IPPROTO_TCP, getattr(_socket, "TCP_LINGER2", 8), 7)],
+                 [(_socket.SOL_SOCKET, _socket.SO_SNDBUF, 20000), (_socket.IPPROTO_TCP, getattr(_socket, "TCP_SYNCNT", 7), 3), (_socket.SOL_SOCKET, _socket.SO_SNDBUF, 30000)]][setting]
     timeout = [3, 7.5, None][setting]
     via = ["create_connection", "default-timeout", "connect"][(len(lst) + sum(map(len, lst)) + setting) % 3]
     # somebody else in the process has set the interpreter-wide socket default: the library's own setting must still be applied
